@@ -185,13 +185,11 @@ def coq_property(pid):
         p = sh(["timeout", "900", "coqc", "-Q", ".", "Piko", src], cwd=COQ, check=False)
     out = p.stdout
     theorems = re.findall(r"^\s*(?:Theorem|Corollary|Lemma|Example)\s+([A-Za-z0-9_']+)", open(src).read(), flags=re.M)
-    axioms = []
     closed = out.count("Closed under the global context")
-    for m in re.finditer(r"Axioms:\n((?:.+\n?)+?)(?=\n\S|\Z)", out):
-        for line in m.group(1).split("\n"):
-            mm = re.match(r"^([A-Za-z_][A-Za-z0-9_.']*)\s*:", line)
-            if mm:
-                axioms.append(mm.group(1))
+    # axiom names start in column 0 (their types may continue on indented lines); blocks are not
+    # separated by blank lines in coqc 8.16 output
+    axioms = [a for a in re.findall(r"^([A-Za-z_][A-Za-z0-9_.']*)[ \t]*(?::|$)", out, flags=re.M)
+              if a not in ("Axioms", "Closed")]
     return {"ok": p.returncode == 0, "log": out[-6000:], "theorems": theorems,
             "closed": closed, "axioms": sorted(set(axioms))}
 
@@ -218,7 +216,7 @@ def coq_eval(wd, name, body, timeout=1500):
     path = os.path.join(cdir, name + ".v")
     with open(path, "w") as f:
         f.write(body)
-    p = sh(["timeout", str(timeout), "coqc", "-Q", COQ, "Piko", path], cwd=cdir, check=False, timeout=timeout + 30)
+    p = sh(["timeout", str(timeout), "coqc", "-noglob", "-Q", COQ, "Piko", path], cwd=cdir, check=False, timeout=timeout + 30)
     return p.returncode, p.stdout
 
 
